@@ -696,7 +696,7 @@ func runTest(t *test, seed int) (obsTrace, *divergence) {
 			if announce {
 				// the handler blocks its caller (the read pump) for 500 ms; let it, and go on once the confirm is out
 				res = vh.Call(time.Millisecond, f)
-				for t0 := time.Now(); res.Hung && time.Since(t0) < 60*time.Millisecond; {
+				for t0 := time.Now(); res.Hung && time.Since(t0) < 250*time.Millisecond; {
 					select {
 					case <-res.Done:
 						res.Hung = false
